@@ -150,6 +150,7 @@ type c07Case struct {
 		Origin   string `json:"origin"`
 		Excluded bool   `json:"excluded"`
 		Xfp      string `json:"xfp"`
+		Form     string `json:"form"`
 	} `json:"c"`
 	Exp struct {
 		Intercepted       bool   `json:"intercepted"`
@@ -256,7 +257,16 @@ func c07Cases(e *env) {
 			if c.C.Xfp != "absent" {
 				xfp = "X-Forwarded-Proto: " + c.C.Xfp + "\r\n"
 			}
-			cl.send([]byte("GET /secret-" + fmt.Sprint(i) + " HTTP/1.1\r\nHost: " + hostHdr + "\r\n" + xfp + "\r\n"))
+			target := "/secret-" + fmt.Sprint(i)
+			switch c.C.Form {
+			case "absHttps":
+				target = "https://" + hostHdr + target
+			case "absHttp":
+				// the client names the http scheme inside the intercepted TLS session: the request still must not
+				// leave in clear text
+				target = "http://" + hostHdr + target
+			}
+			cl.send([]byte("GET " + target + " HTTP/1.1\r\nHost: " + hostHdr + "\r\n" + xfp + "\r\n"))
 			r, err := cl.recv("GET", 8*time.Second)
 			time.Sleep(5 * time.Millisecond)
 			gotTLS, gotPlain, sniffed := false, false, ""
